@@ -1427,7 +1427,9 @@ fn gen_case(batch: &str, index: u64, seed: u64) -> Case {
             Case { model: "svr".into(), x, y, kernel: KSpec { kind: "linear".into(), gamma: 0.0, degree: 0.0, coef0: 0.0 }, c, tol: 1e-3, epoch: 0, eps: *pr.pick(&[0.0, 0.1]), f32m: false, queries: vec![], budget: 100_000_000_000, tape: TapeSpec::prng(tape_seed), kind: "svr-marathon".into(), ctor: (seed % 4) as u8, post: post_of(seed) }
         }
         "svr" | "svr-f32" => {
-            let n = pr.usize_in(4, 40);
+            // the upper half of the size domain (41..80 rows) under the RBF kernel with C <= 1, where SMO stays fast
+            let big_n = Xo::fork(seed, "svr-big-n").chance(0.12);
+            let n = if big_n { Xo::fork(seed, "svr-big-n-size").usize_in(41, 80) } else { pr.usize_in(4, 40) };
             let p = pr.usize_in(1, 5);
             let scale = *pr.pick(&[0.3, 1.0, 2.0]);
             let x: Vec<Vec<f64>> = (0..n).map(|_| (0..p).map(|_| scale * r.range(-1.0, 1.0)).collect()).collect();
@@ -1445,7 +1447,10 @@ fn gen_case(batch: &str, index: u64, seed: u64) -> Case {
                 let at = pr.below(n as u64) as usize;
                 y[at] = *pr.pick(&[500.0, -5000.0, 5000.0, 250_000.0]);
             }
-            let kernel = gen_kernel(&mut pr, true, true);
+            let mut kernel = gen_kernel(&mut pr, true, true);
+            if big_n {
+                kernel = KSpec { kind: "rbf".into(), gamma: *Xo::fork(seed, "svr-big-n-gamma").pick(&[0.1, 0.5, 1.0, 2.0]), degree: 0.0, coef0: 0.0 };
+            }
             let nq = pr.usize_in(0, 5);
             let queries = (0..nq).map(|_| (0..p).map(|_| scale * r.range(-1.5, 1.5)).collect()).collect();
             // keep to the region where SMO converges quickly (slow convergence is not a violation and
@@ -1458,6 +1463,9 @@ fn gen_case(batch: &str, index: u64, seed: u64) -> Case {
                 tol = logu(&mut pr, tol, 1e-2);
             }
             if kernel.kind != "rbf" && c > 1.0 && tol < 1e-2 {
+                c = 1.0;
+            }
+            if big_n && c > 1.0 {
                 c = 1.0;
             }
             let tol = if kernel.kind == "poly" && tol < 1e-3 { 1e-3 } else { tol };
